@@ -438,8 +438,23 @@ func (ex *Explorer) input(nameV value, kind string, w int, fr *frame, t types.Ty
 	name, _ := goString(nameV)
 	v := ex.freshVar(name, w)
 	ex.inputs = append(ex.inputs, InputRec{v.name, kind, w})
+	if c, ok := pinnedInputs[v.name]; ok {
+		// debugging aid (GOSYM_PIN="name=value,..."): the input is fixed
+		return fromTerm(t, mkConst(w, c))
+	}
 	return &Sym{v}
 }
+
+var pinnedInputs = func() map[string]uint64 {
+	m := map[string]uint64{}
+	for _, kv := range strings.Split(os.Getenv("GOSYM_PIN"), ",") {
+		if i := strings.Index(kv, "="); i > 0 {
+			n, _ := strconv.ParseUint(kv[i+1:], 10, 64)
+			m[kv[:i]] = n
+		}
+	}
+	return m
+}()
 
 func symBytes(name string, maxLen int, exact bool) []value {
 	ex := theEx
@@ -488,6 +503,9 @@ func extVChoice(fr *frame, a []value) value {
 	}
 	v := theEx.freshVar(name, 8)
 	theEx.inputs = append(theEx.inputs, InputRec{v.name, "choice", 8})
+	if c, ok := pinnedInputs[v.name]; ok {
+		theEx.assume(mkEq(v, mkConst(8, c)))
+	}
 	theEx.assume(mkCmp(OpUlt, v, mkConst(8, uint64(n))))
 	return int(theEx.concretize(v, 0, int64(n-1), "choice:"+name))
 }
@@ -497,6 +515,9 @@ func extVDecimal(fr *frame, a []value) value {
 	name, _ := goString(a[0])
 	v := theEx.freshVar(name, 64)
 	theEx.inputs = append(theEx.inputs, InputRec{v.name, "decimal", 64})
+	if c, ok := pinnedInputs[v.name]; ok {
+		theEx.assume(mkEq(v, mkConst(64, c)))
+	}
 	return decstr{v}
 }
 
